@@ -264,9 +264,18 @@ C05(pre, e, post, line) ==
 
 \* ---- C07 bankruptcy --------------------------------------------------------------------------
 BANKRUPT_USD == RMake(BOfInt(1), BOfInt(10))
-C07Acc0 == [killed |-> {}]
+\* history: banks shut by a bankruptcy, and per bank whether its admin *asked for* permissionless settlement (the flag as
+\* first seen, then the value of every accepted explicit request) - "opted in" is a decision, not a bit that happens to be set
+C07Acc0 == [killed |-> {}, optin |-> <<>>]
 C07AccNext(acc, pre, e, post) ==
-  [killed |-> acc.killed \cup {bn \in DOMAIN post.banks : post.banks[bn].cfg.op_state = OP_KILLED}]
+  LET seen == DOMAIN acc.optin
+      asked == e.ev = "configure_bank" /\ Ok(e) /\ Has(e.a, "bank") /\ Has(e.a, "cfg") /\ Has(e.a.cfg, "permissionless_bad_debt")
+               /\ Has(pre.banks, e.a.bank) /\ ~Bit(pre.banks[e.a.bank].flags, BANK_FREEZE)
+  IN [killed |-> acc.killed \cup {bn \in DOMAIN post.banks : post.banks[bn].cfg.op_state = OP_KILLED},
+      optin |-> [bn \in DOMAIN post.banks |->
+                   IF asked /\ e.a.bank = bn THEN e.a.cfg.permissionless_bad_debt = TRUE
+                   ELSE IF bn \in seen THEN acc.optin[bn]
+                   ELSE Bit(post.banks[bn].flags, BANK_PERMISSIONLESS_BAD_DEBT)]]
 
 C07(pre, e, post, acc, line) ==
   /\ (e.ev = "bankruptcy" /\ Ok(e)) =>
@@ -298,6 +307,8 @@ C07(pre, e, post, acc, line) ==
             /\ Chk("C07", "account_owes_in_this_bank", line, RGt(RMul(R(lsh), R(b.lsv)), RSub(EPS, U)), [acct |-> an, bank |-> bn])
             /\ Chk("C07", "only_admins_unless_permissionless", line,
                    Bit(b.flags, BANK_PERMISSIONLESS_BAD_DEBT) \/ signer \in {g.admin, g.risk_admin}, [signer |-> signer])
+            /\ (Has(acc.optin, bn) /\ signer \notin {g.admin, g.risk_admin}) =>
+                 Chk("C07", "permissionless_only_where_the_admin_opted_in", line, acc.optin[bn], [signer |-> signer, bank |-> bn])
             /\ Chk("C07", "not_in_flashloan_or_receivership", line, ~Bit(a.flags, ACC_FLASHLOAN) /\ ~Bit(a.flags, ACC_RECEIVERSHIP), [acct |-> an])
             /\ Chk("C07", "account_disabled_and_debt_cleared", line,
                    Bit(post.accts[an].flags, ACC_DISABLED) /\ RLt(RMul(R(PosBits(post.accts[an], bn, "l")), R(q.lsv)), EPS), [acct |-> an])
